@@ -171,11 +171,16 @@ def events_cases(tier, seed):
     hits, _ = engine.parallel_map(pre, buf, chunk=20)
     directed = [("S-buffer/workflow-ends-during-tier-move", c)
                 for (sc, c), h in zip(buf, hits) if h]
+    # dense off-grid starts with coarse units
+    dense = common.add_algs(list(common.offgrid_dense_scope(lvl)),
+                            lambda c: [{"kind": "queue"}])
+    if q:
+        dense = common.thin(dense, 2)
     if q:
         plan, con, buf = (common.thin(plan, 6), common.thin(con, 3),
                           common.thin(buf, 3))
         ids = common.thin(ids, 2)
-    out = plan + con + buf + bat + park + off + ids
+    out = plan + con + buf + bat + park + off + ids + dense
     return common.rotate([(sc + "/events-mode", c) for sc, c in out]
                          + directed, seed), len(directed)
 
